@@ -7,6 +7,7 @@
 #define RV __CPROVER_return_value
 
 /* the skeleton of registered items built by the harness */
+nni_stat *g_out; /* result cell of the snapshot units */
 nni_stat_item *g_it0, *g_it1, *g_it2, *g_it3; /* root, child 0, child 1, child of child 0 */
 
 /* ---- strings of at most ST_SCAP (<= 3) bytes ---------------------------- */
